@@ -118,3 +118,27 @@ reg(
                 "the suite never builds two policies for the same scenario."),
     level_note="'Reached' is what the on-demand run's instrumented source observed.",
 )
+
+reg(
+    "C20",
+    title="parsers and templates shared across threads",
+    level="exploration",
+    technique="runtime monitoring under stress: barrier-released threads on shared Arc<Parser>/Arc<Template>, per-call differential oracle against stand-alone results, instrumented PartialSource (delay injection inside the lazy store's critical section) and PartialStore (enter/leave event log); ThreadSanitizer and Miri in the thorough tier",
+    design_ref="DESIGN.md §5 C20",
+    rule=("a case = one concurrent round: pool (3 templates, 2 data objects, 3 partials incl. broken + a missing name), 2-16 threads released by a "
+          "barrier, 10-50 seeded calls each (render, render_to, parse+render) on shared objects, lazy or eager policy, delay mode in "
+          "{none, yield, sleep 50us, sleep 500us} injected inside PartialSource::try_get, optional start skew. Every call's result must equal "
+          "its stand-alone sequential result; afterwards the parser must still work sequentially. distinct = distinct round by content hash; "
+          "non-trivial = at least one call interval overlapped a call of another thread (from the recorded call/return stamps)."),
+    profiles={"quick": ["checked"], "thorough": ["checked"]},
+    floor={"quick": 200, "thorough": 10000},
+    hang_is_violation=True,
+    assumptions=[
+        "schedules are sampled by the OS scheduler, thread-count sweep, start skew and injected delays; no enumeration of interleavings is claimed",
+        "a round that makes no progress for 300 s is reported as a deadlock",
+    ],
+    level_text=("Stress exploration of real threads with a per-call oracle (stronger than linearizability here: every call is a pure function of "
+                "its arguments) and evidence of actual contention (overlapping calls, contended first use of lazily compiled partials). Right "
+                "level: the property quantifies over schedules; the suite is single-threaded."),
+    level_note="Race freedom is only 'no ThreadSanitizer/Miri report on the executions run' (thorough tier).",
+)
